@@ -10,6 +10,7 @@ import (
 	"math"
 	"math/rand"
 	"os"
+	"reflect"
 	"sort"
 	"strconv"
 	"strings"
@@ -67,14 +68,14 @@ type defScn struct {
 		Order []int  `json:"order"`
 		Want  []int  `json:"want"`
 	} `json:"custom"`
-	Weight  int `json:"weight"`
-	Fs381   int `json:"fs381"`
-	Mid381  int `json:"mid381"`
-	WantMid int `json:"wantmid381"`
-	WantPre int `json:"wantpre381"`
+	Weight   int `json:"weight"`
+	Fs381    int `json:"fs381"`
+	Mid381   int `json:"mid381"`
+	WantMid  int `json:"wantmid381"`
+	WantPre  int `json:"wantpre381"`
 	WantRoot int `json:"wantroot381"`
-	Lh381   int `json:"lh381"`
-	Want381 int `json:"want381"`
+	Lh381    int `json:"lh381"`
+	Want381  int `json:"want381"`
 }
 
 var (
@@ -240,6 +241,7 @@ func c04Main(args []string) int {
 			if c04Setup(out) {
 				c04Pinned(out)
 				c04AfterBoxes(out)
+				c04NoRelativeUnits(out)
 			}
 		case "kinds":
 			if c04Setup(out) {
@@ -782,6 +784,74 @@ func c04Custom(s *defScn, line []byte, out *drv.Out) {
 		if got[k] != want {
 			out.Disagree("custom-property-scope", fmt.Sprintf("%s (styles asked in the order %v): node %d sees --x = %q, CSS Variables requires %q", doc, c.Order, k, got[k], want), map[string]interface{}{"doc": doc, "scenario": json.RawMessage(line)})
 			return
+		}
+	}
+}
+
+// c04NoRelativeUnits: "relative values are made absolute": whatever property accepts a font-relative length (tried: 2em, 2em
+// 2em, 3rem, 1ex, 1ch on an element of font size 10px under a root of 20px), its computed value holds no em / ex / ch / rem.
+func c04NoRelativeUnits(out *drv.Out) {
+	var find func(v reflect.Value, depth int) string
+	find = func(v reflect.Value, depth int) string {
+		if depth > 8 || !v.IsValid() {
+			return ""
+		}
+		if v.Type() == reflect.TypeOf(pr.Dimension{}) {
+			d := v.Interface().(pr.Dimension)
+			switch d.Unit {
+			case pr.Em, pr.Ex, pr.Ch, pr.Rem:
+				return fmt.Sprintf("%v (unit %v)", d.Value, d.Unit)
+			}
+			return ""
+		}
+		switch v.Kind() {
+		case reflect.Interface, reflect.Ptr:
+			if v.IsNil() {
+				return ""
+			}
+			return find(v.Elem(), depth+1)
+		case reflect.Struct:
+			for i := 0; i < v.NumField(); i++ {
+				if v.Type().Field(i).PkgPath != "" {
+					continue // unexported
+				}
+				if r := find(v.Field(i), depth+1); r != "" {
+					return r
+				}
+			}
+		case reflect.Slice, reflect.Array:
+			for i := 0; i < v.Len(); i++ {
+				if r := find(v.Index(i), depth+1); r != "" {
+					return r
+				}
+			}
+		}
+		return ""
+	}
+	for k := pr.KnownProp(1); k < pr.NbProperties; k++ {
+		name := k.String()
+		if name == "font-size" {
+			continue
+		}
+		for _, val := range []string{"2em", "2em 2em", "3rem", "1ex", "1ch", "2em 2em 2em 2em", "minmax(1em, 2em)", "linear-gradient(red 1em, blue 2rem)"} {
+			doc := `<html style="font-size:20px"><head></head><body><p style="font-size:10px;` + name + `:` + val + `">x</p></body></html>`
+			n, err := c04Styles(doc)
+			if err != nil {
+				continue
+			}
+			st := n.sf.Get(n.nodes[2], "")
+			if st == nil {
+				continue
+			}
+			v := st.Get(pr.PropKey{KnownProp: k})
+			if v == nil {
+				continue
+			}
+			out.Count("relative-unit-probes")
+			if r := find(reflect.ValueOf(v), 0); r != "" {
+				out.Disagree("relative-unit-left-in-computed-value:"+name, fmt.Sprintf("%s: %s computes to %v, which still holds the font-relative length %s", doc, name, v, r), map[string]interface{}{"doc": doc, "prop": name})
+				break
+			}
 		}
 	}
 }
